@@ -31,20 +31,40 @@ func (c *Ctx) runMCLRParse(all []*SynGrammar, maxLen, maxFail int, withInvalid b
 	if len(gs) == 0 {
 		infra("no conflict-free grammar for MC_LRParse")
 	}
-	cfg := fmt.Sprintf("SPECIFICATION Spec\nCONSTANTS\n  MaxLen = %d\n  MaxFail = %d\n  WithInvalid = %v\nCHECK_DEADLOCK TRUE\n", maxLen, maxFail, map[bool]string{true: "TRUE", false: "FALSE"}[withInvalid])
-	for _, i := range invs {
-		cfg += "INVARIANT " + i + "\n"
+	mk := func(maxLen int, liveness bool) string {
+		cfg := fmt.Sprintf("SPECIFICATION Spec\nCONSTANTS\n  MaxLen = %d\n  MaxFail = %d\n  WithInvalid = %v\nCHECK_DEADLOCK TRUE\n", maxLen, maxFail, map[bool]string{true: "TRUE", false: "FALSE"}[withInvalid])
+		for _, i := range invs {
+			cfg += "INVARIANT " + i + "\n"
+		}
+		if liveness {
+			cfg += "PROPERTY Terminates\n"
+		}
+		return cfg
 	}
-	if liveness {
-		cfg += "PROPERTY Terminates\n"
+	// TLC's liveness checking does not scale like its safety checking: beyond the quick bound
+	// the invariants are checked at maxLen and termination at maxLen-1
+	type run struct {
+		maxLen   int
+		liveness bool
 	}
-	r := c.RunTLC(TLCOpts{Module: "MC_LRParse", Cfg: cfg, Timeout: 40 * time.Minute, Files: map[string][]byte{"grammars.json": mustJSON(mcGrammarEntries(gs))}})
-	if !r.OK {
-		infra("MC_LRParse: the model of the parse driver violates its own properties (%s %s); the specification needs attention\n%s", r.ErrKind, r.InvViolated, tail(filterTLC(r.Out), 60))
+	runs := []run{{maxLen, liveness}}
+	if liveness && maxLen > 4 {
+		runs = []run{{maxLen, false}, {maxLen - 1, true}}
 	}
-	c.Add("states", r.Distinct)
-	c.Add("transitions", r.Generated)
-	c.Set("mc_lrparse", map[string]any{"grammars": len(gs), "max_input_len": maxLen, "max_failing_call": maxFail, "distinct_states": r.Distinct, "invariants": invs, "termination_checked": liveness})
+	files := map[string][]byte{"grammars.json": mustJSON(mcGrammarEntries(gs))}
+	var distinct int64
+	var desc []any
+	for _, ru := range runs {
+		r := c.RunTLC(TLCOpts{Module: "MC_LRParse", Cfg: mk(ru.maxLen, ru.liveness), Timeout: 60 * time.Minute, Files: files})
+		if !r.OK {
+			infra("MC_LRParse: the model of the parse driver violates its own properties (%s %s); the specification needs attention\n%s", r.ErrKind, r.InvViolated, tail(filterTLC(r.Out), 60))
+		}
+		c.Add("states", r.Distinct)
+		c.Add("transitions", r.Generated)
+		distinct += r.Distinct
+		desc = append(desc, map[string]any{"max_input_len": ru.maxLen, "termination_checked": ru.liveness, "distinct_states": r.Distinct})
+	}
+	c.Set("mc_lrparse", map[string]any{"grammars": len(gs), "max_failing_call": maxFail, "distinct_states": distinct, "invariants": invs, "runs": desc})
 }
 
 // tinySynGrammars: the exhaustive family of tiny grammars (1 nonterminal + start, 2 terminals,
